@@ -96,6 +96,10 @@ CHECKS["C24"] = ("vcheck", "proptest token soups, random bytes and mutated valid
     "Generated search with shrinking; no panic, nothing after the first error, every yielded record valid for its class/type under the independent validators; a case running > 60 s is re-run in a fresh process and reported as non-termination only if it stalls again.",
     "Trusts vmodel::rdata::validate.", "§4 C24")
 
+CHECKS["C25"] = ("vcheck", "proptest trees of zone files written to a scratch directory; round-trip against the generating record list with (path, line) plus a metamorphic relation: fs::Parser over the tree = in-memory Parser over the textual flattening",
+    "Generated search with shrinking over trees of <= 6 files (sub-directories, quoted/escaped/absolute paths, origin arguments, $ORIGIN/$TTL inside includes, records depending on inherited owner/TTL/class/origin right after an include, missing files, depth limits 0-4).",
+    "Trusts vmodel::zonefile. Flattening is skipped (counted) when the includer's origin is unset at an include, because no directive can reset the origin to 'unset'.", "§4 C25")
+
 NOT_YET = {}
 
 def main():
